@@ -53,54 +53,38 @@ def kinds_of_test(t: ast.AST, var: str) -> Optional[Set[str]]:
 
 def fk_dispatch(ctx):
     """How render_reference dispatches on the reference kind: ({kind: [(source side, referenced side)]}, kinds whose sides could not be
-    resolved, whether `<>` goes to the join-table generator, the function).  Sides are 'col1'/'col2'.  Branch-local assignments
-    (including tuple unpacking) are followed, so `key, target = model.col1, model.col2` + one generator call after the chain is read too."""
-    fi = ctx.idx.func(REFMOD, 'render_reference')
+    resolved, whether `<>` goes to the join-table generator, the function).  Sides are 'col1'/'col2'.
+    The function (small helpers read in place) is partially evaluated once per kind constant with every test on `<model>.type` decided by that kind
+    (sa/peval.py): if/elif chains, early returns, flags, conditional expressions, tuple selections and swapped branches all give the same answer."""
+    from ..inline import inlined_info
+    from ..peval import run
+    fi0 = ctx.idx.func(REFMOD, 'render_reference')
+    fi = inlined_info(ctx.idx, fi0, depth=2, keep={'generate_inline_sql', 'generate_not_inline_sql', 'generate_many_to_many_sql', 'validate_for_sql', 'escape_braces'})
     p = [a.arg for a in fi.node.args.args][0]
     seen: Dict[str, List[Tuple[str, str]]] = {}
     unresolved: List[str] = []
     m2m = False
-    gen_calls = [c for c in ast.walk(fi.node) if isinstance(c, ast.Call) and ('source_col' in {k.arg for k in c.keywords} or
-                 (len(c.args) >= 3 and norm(c.args[0]) == p))]
-
-    def side_of(e: ast.AST, local: Dict[str, str]) -> Optional[str]:
-        s_ = norm(e)
-        s_ = local.get(s_, s_)
-        return s_.replace(f'{p}.', '') if s_ in (f'{p}.col1', f'{p}.col2') else None
-    branch_ifs = [x for x in ast.walk(fi.node) if isinstance(x, ast.If) and kinds_of_test(x.test, p)]
-    for n in branch_ifs:
-        ks = kinds_of_test(n.test, p)
-        local: Dict[str, str] = {}
-        for b in n.body:
-            for a in ast.walk(b):
-                if isinstance(a, ast.Assign):
-                    for t in a.targets:
-                        if isinstance(t, ast.Name):
-                            local[t.id] = norm(a.value)
-                        elif isinstance(t, (ast.Tuple, ast.List)) and isinstance(a.value, (ast.Tuple, ast.List)) and len(t.elts) == len(a.value.elts):
-                            for te, ve in zip(t.elts, a.value.elts):
-                                if isinstance(te, ast.Name):
-                                    local[te.id] = norm(ve)
-        if any(norm(c.func) == 'generate_many_to_many_sql' for b in n.body for c in ast.walk(b) if isinstance(c, ast.Call)):
-            if 'MANY_TO_MANY' in ks:
-                m2m = True
-            continue
-        in_branch = [c for c in gen_calls if any(c is x for b in n.body for x in ast.walk(b))]
-        outside = [c for c in gen_calls if not any(any(c is y for b in x.body for y in ast.walk(b)) for x in branch_ifs)]
-        calls = in_branch or (outside if local else [])
-        if not calls:
-            unresolved.extend(ks)
-        for c in calls:
-            kw = {k.arg: k.value for k in c.keywords}
-            se = kw.get('source_col', c.args[1] if len(c.args) >= 3 else None)
-            re_ = kw.get('ref_col', c.args[2] if len(c.args) >= 3 else None)
-            a, b_ = (side_of(se, local), side_of(re_, local)) if se is not None and re_ is not None else (None, None)
-            for k in ks:
-                if a and b_:
+    for k in sorted(const_names(ctx)):
+        tr = run(fi.node, f'{p}.type', k)
+        gens = []
+        for c in tr.calls:
+            kw = {x.arg: x.value for x in c.keywords}
+            if 'source_col' in kw and 'ref_col' in kw:
+                gens.append((kw['source_col'], kw['ref_col']))
+            elif len(c.args) >= 3 and norm(c.args[0]) == p and isinstance(c.func, (ast.Name, ast.IfExp)) and 'generate' in norm(c.func):
+                gens.append((c.args[1], c.args[2]))
+            if 'generate_many_to_many_sql' in norm(c.func):
+                if k == 'MANY_TO_MANY':
+                    m2m = True
+        for se, re_ in gens:
+            a = norm(se).replace(f'{p}.', '') if norm(se) in (f'{p}.col1', f'{p}.col2') else None
+            b_ = norm(re_).replace(f'{p}.', '') if norm(re_) in (f'{p}.col1', f'{p}.col2') else None
+            if a and b_:
+                if (a, b_) not in seen.get(k, []):
                     seen.setdefault(k, []).append((a, b_))
-                else:
-                    unresolved.append(k)
-    return seen, unresolved, m2m, fi
+            else:
+                unresolved.append(k)
+    return seen, unresolved, m2m, fi0
 
 
 def holder_sides(ctx) -> Dict[str, str]:
